@@ -78,8 +78,11 @@ impl<T: Copy> Block for VectorSink<T> {
         if n > 0 {
             storage.0.extend(&i.slice()[..n]);
             storage.1.extend(tags);
-            i.consume(ilen);
         }
+        // Always consume, also when the storage is full. Otherwise the input
+        // backs up, upstream blocks stall, and this block keeps waiting for
+        // data that is already there.
+        i.consume(ilen);
         Ok(BlockRet::WaitForStream(&self.src, 1))
     }
 }
